@@ -169,10 +169,16 @@ func VfC18SecondRun() {
 		s0 := &JSONFileStorage{filename: file}
 		s0.routers = map[netip.Addr]*StoredRouter{}
 		s0.mappings = map[string]StoredMapping{}
-		used := vf.TimeSec()
-		_ = s0.SaveRouter(&StoredRouter{Address: &m.PublicAddress{IP: a1}, Universe: "u", CreatedAt: vf.TimeSec(), UsedAt: &used})
-		_ = s0.SaveRouter(&StoredRouter{Address: &m.PublicAddress{IP: a2}, Universe: "u", CreatedAt: vf.TimeSec()})
-		_ = s0.SaveMapping("a.myco", a1)
+		if vf.Bool() {
+			used := vf.TimeSec()
+			_ = s0.SaveRouter(&StoredRouter{Address: &m.PublicAddress{IP: a1}, Universe: "u", CreatedAt: vf.TimeSec(), UsedAt: &used})
+			_ = s0.SaveRouter(&StoredRouter{Address: &m.PublicAddress{IP: a2}, Universe: "u", CreatedAt: vf.TimeSec()})
+			_ = s0.SaveMapping("a.myco", a1)
+		} else {
+			// the earlier run saw no other router and learned no name: it saved an EMPTY state
+			// (with omitempty the file is just "{}" and decodes to nil maps)
+			vf.Reach("earlier-run-saved-empty-state")
+		}
 		vfNoKill = true
 		err := s0.Stop()
 		vf.Assume(!vfCrashed)
